@@ -428,6 +428,25 @@ def check_accumulators(ctx, F):
                     bad = "status accumulated into %s comes from `%s`" % (acc, _expr_txt(rhs))
                 elif want != acc:
                     bad = "the %s status is or-ed into %s" % ("head's" if role == "head" else "sub-states'", acc)
+        # ... and what the member hands to *its* parent is the head's own status (the sub-states' belongs to this region's plan): every returned
+        # local is initialised from the head call
+        if n:
+            for x in walk(b["body"]):
+                if x.get("k") == "ret" and x.get("e") is not None:
+                    src = _unwrap(strip(x["e"]))
+                    if src.get("k") == "var" and src.get("d") == "local":
+                        name = src["n"]
+                        init = None
+                        for y in walk(b["body"]):
+                            if y.get("k") == "decl":
+                                for v in y["vars"]:
+                                    if v["n"] == name:
+                                        init = _unwrap(v.get("init") or {})
+                        if init is not None and init.get("k") == "call" and "f" in init:
+                            c = F.fn(init["f"]).get("cls")
+                            if c in ("CS_", "OS_"):
+                                bad = bad or "returns `%s`, the status of the sub-states (%s): the enclosing region takes it for this region's own result" % (
+                                    name, F.fn(init["f"])["name"])
         if n:
             ctx.instance("C06.status-accumulators", site, {"function": site, "loc": F.floc(fid), "accumulations": n})
         if bad:
